@@ -121,6 +121,9 @@ class Pool:
         self.max_str = max_str
         self.used = [0, 0, 0]
         self.exhausted = False
+        # structure_only: primitive values and enumeration literals are fixed (only presence of optionals, list lengths
+        # and the classes chosen for abstract slots stay symbolic) -- for properties about the SHAPE of an instance graph
+        self.structure_only = False
 
     def str(self) -> Any:
         if self.used[0] >= len(self.strs):
@@ -212,6 +215,8 @@ class Sdk:
         if isinstance(ta, intermediate.OurTypeAnnotation):
             ot = ta.our_type
             if isinstance(ot, intermediate.Enumeration):
+                if pool.structure_only:
+                    return self.default(ta)
                 idx = pool.int()
                 assume(0 <= idx < len(ot.literals))
                 for k, literal in enumerate(ot.literals):
@@ -251,6 +256,8 @@ class Sdk:
         raise AssertionError(ta)
 
     def primitive(self, a_type: intermediate.PrimitiveType, pool: Pool) -> Tuple[Any, Any]:
+        if pool.structure_only:
+            return self.default(intermediate.PrimitiveTypeAnnotation(a_type=a_type, parsed=None))  # type: ignore
         if a_type is intermediate.PrimitiveType.STR:
             v = pool.str()
             return v, v
